@@ -1,0 +1,9 @@
+//go:build verif
+
+package dcmi
+
+import "time"
+
+func VerifSecondsMultiplier(u uint8) int                 { return secondsMultiplier(u) }
+func VerifRollingAvgPeriodDuration(b byte) time.Duration { return rollingAvgPeriodDuration(b) }
+func VerifRollingAvgPeriodByte(d time.Duration) byte     { return rollingAvgPeriodByte(d) }
